@@ -210,8 +210,10 @@ def finish(prop, tier, seed, level, t0, coverage, assumptions, candidates, harne
         'wall_s': round(time.time() - t0, 3),
         'violations': len(confirmed),
     }
-    os.makedirs(os.path.join(VERIF, 'evidence'), exist_ok=True)
-    with open(os.path.join(VERIF, 'evidence', '%s.json' % prop), 'w') as f:
+    # runs against a scratch tree (VERIF_REPO set by vf/tools/seedcheck.sh) must not overwrite the evidence of /repo
+    evdir = os.path.join(VERIF, 'evidence') if REPO == '/repo' else os.path.join(VERIF, '.cache', 'scratch_evidence')
+    os.makedirs(evdir, exist_ok=True)
+    with open(os.path.join(evdir, '%s.json' % prop), 'w') as f:
         json.dump(ev, f, indent=1, default=str)
     print('%s %s: %s; %d known finding(s), %d violation(s), %d inconclusive, %d harness error(s); %.1fs' % (
         prop, tier, _summ(coverage), len(known_hit), len(confirmed), len(inconclusive), len(harness_errors),
